@@ -37,13 +37,16 @@ Valid(s) == s.known /\ ~s.ended /\ Remaining(s) > 0 /\ s.errors < MaxErrors
 \* the property's notion of a live subscription
 Alive(i) == Valid(subs[i]) /\ ~subs[i].unsub
 
-Subscribe(c, f, req, endTo) ==
+\* sp: how the action URIs of the filter are separated in the request (any XML white space separates list items; the
+\* filter is the same set of actions whatever the spelling)
+Seps == {"blank", "newline", "tab", "padded"}
+Subscribe(c, f, req, endTo, sp) ==
   /\ Go /\ issued + 1 \in Ids /\ f # {}
   /\ LET i == issued + 1 IN
        /\ subs' = [subs EXCEPT ![i] = [known |-> TRUE, owner |-> c, filter |-> f, started |-> now, dur |-> Grant(req),
                                        errors |-> 0, unsub |-> FALSE, unsubAt |-> 0, ended |-> FALSE, endTo |-> endTo]]
        /\ issued' = i
-       /\ Log([act |-> "Subscribe", c |-> c, f |-> f, req |-> req, endTo |-> endTo, id |-> i, res |-> "ok"])
+       /\ Log([act |-> "Subscribe", c |-> c, f |-> f, req |-> req, endTo |-> endTo, sep |-> sp, id |-> i, res |-> "ok"])
   /\ UNCHANGED <<now, wire, stopped, fate>>
 
 \* a request that names subscription i; "known" as long as housekeeping has not removed it
@@ -142,7 +145,7 @@ Stop(sendEnd, lost) ==
   /\ UNCHANGED <<now, issued, fate>>
   /\ Log([act |-> "Stop", sendEnd |-> sendEnd, lost |-> lost, ends |-> IF sendEnd THEN {i \in Ids : Alive(i)} ELSE {}])
 
-Next == \/ \E c \in Clients, f \in Filters, req \in ReqVals, e \in BOOLEAN : Subscribe(c, f, req, e)
+Next == \/ \E c \in Clients, f \in Filters, req \in ReqVals, e \in BOOLEAN, sp \in Seps : Subscribe(c, f, req, e, sp)
         \/ \E i \in Ids, req \in ReqVals : Renew(i, req)
         \/ \E i \in Ids : GetStatus(i) \/ Unsubscribe(i)
         \/ Tick \/ Housekeeping
